@@ -1,7 +1,7 @@
 // U-sched: the scheduler core under contract (C01-C06, C08, C15, C16, C19 function-level parts).
 //@@ unit U-sched
 //@@ default props=C02 rewrites=R1,R2,R3,R5,R13 ghost="Tracked(h): Tracked<&mut Heap>" ghostarg="Tracked(h)" loopinv="h.wf(), fwd(*old(h), *h)," bodyprelude="broadcast use {lemma_fwd_refl, lemma_fwd_trans};" attr="#[verifier::exec_allows_no_decreases_clause] #[verifier::loop_isolation(false)]"
-//@@ heapmethods state set_state set_err err children children_in next parent siblings task set_task sched_task emit_task_event emit_proc_event eval init run review error exec is_ready emit_task emit_error create_task push root set_data flag set_flag prev start_time update_data outputs is_event_processed prepare is_auto_complete
+//@@ heapmethods state set_state set_err err children children_in next parent siblings task set_task sched_task emit_task_event emit_proc_event eval init run review error exec is_ready emit_task emit_error create_task push root set_data flag set_flag prev start_time update_data outputs is_event_processed prepare is_auto_complete abort_task back_task undo_task redo_task
 use vstd::prelude::*;
 use std::sync::Arc;
 verus! {
@@ -46,7 +46,7 @@ impl Context {
             //# D-sched-fwd
             final(h).wf() && fwd(*old(h), *final(h)) && final(h).cur == old(h).cur,
             //# D-sched-one-new-task
-            exists|n: Tid| !old(h).has(n) && #[trigger] final(h).tasks == old(h).tasks.insert(n, fresh_task(*node, Some(old(h).cur))) && final(h).queue == old(h).queue.push(n),
+            exists|n: Tid| !old(h).has(n) && #[trigger] final(h).tasks == old(h).tasks.insert(n, fresh_task(*node, Some(old(h).cur), old(h).next_seq)) && final(h).queue == old(h).queue.push(n),
 //@@ end
 //@@ extract file=acts/src/scheduler/context.rs in="impl Context" item="fn emit_task" name=Context::emit_task props=C02,C03,C08
 //@@ rw R7 `self . runtime . scher ( )` => `self.runtime.scher()`
@@ -55,6 +55,8 @@ impl Context {
         ensures
             //# H4-emit-fwd
             final(h).wf() && fwd(*old(h), *final(h)) && final(h).cur == old(h).cur,
+            //# H4-non-error-event-keeps-existing-tasks
+            !(old(h).st(task.id@) is Error) ==> forall|x: Tid| #[trigger] old(h).has(x) ==> final(h).tasks[x] == old(h).tasks[x],
 //@@ end
 //@@ extract file=acts/src/scheduler/context.rs in="impl Context" item="fn emit_error" name=Context::emit_error props=C02,C06
 //@@ opt attr="#[verifier::exec_allows_no_decreases_clause]"
@@ -63,6 +65,108 @@ impl Context {
         ensures
             //# E2-emit-error-fwd
             final(h).wf() && fwd(*old(h), *final(h)),
+//@@ end
+//@@ extract file=acts/src/scheduler/context.rs in="impl Context" item="fn redo_task" name=Context::redo_task props=C02,C05
+//@@ rw R7 `Some ( prev_task )` => `Some(prev_task)`
+//@@ spec
+        requires old(h).wf(), wf_task(*old(h), **task), task.node.s_kind() != NodeKind::Workflow
+        ensures
+            //# R-redo-fwd
+            final(h).wf() && fwd(*old(h), *final(h)) && final(h).cur == old(h).cur,
+            //# R-redo-existing-unchanged
+            forall|x: Tid| #[trigger] old(h).has(x) ==> final(h).tasks[x] == old(h).tasks[x],
+//@@ end
+//@@ extract file=acts/src/scheduler/context.rs in="impl Context" item="fn abort_task" name=Context::abort_task props=C02,C03,C05
+//@@ spec
+        requires old(h).wf(), wf_task(*old(h), **task), !st_terminal(old(h).st(task.id@))
+        ensures
+            //# B-abort-fwd
+            final(h).wf() && fwd(*old(h), *final(h)),
+            //# B-abort-closes-the-act
+            ret is Ok ==> final(h).st(task.id@) is Aborted,
+//@@ proof at=beforeloop1
+        let ghost act_tid0 = task.id@;
+//@@ loop 1
+        invariant
+            //# sib-ok
+            tasks_ok(*h, __v1@),
+            //# sib-not-self
+            forall|i: int| 0 <= i < __v1@.len() ==> (#[trigger] __v1@[i]).id@ != act_tid0,
+            //# act-untouched
+            h.tasks[act_tid0] == old(h).tasks[act_tid0] && h.cur == old(h).cur,
+//@@ proof at=beforeloop2
+        let ghost act_tid = task.id@;
+//@@ loop 2
+        invariant
+            //# anc-ok
+            parent is Some ==> wf_task(*h, *parent->Some_0),
+            //# act-aborted
+            h.has(act_tid) && h.st(act_tid) is Aborted,
+//@@ loop 3
+        invariant
+            //# anc-children-ok
+            tasks_ok(*h, __v3@) && h.has(task.id@),
+            //# act-aborted
+            h.has(act_tid) && h.st(act_tid) is Aborted,
+//@@ end
+//@@ extract file=acts/src/scheduler/context.rs in="impl Context" item="fn undo_task" name=Context::undo_task props=C02,C05
+//@@ rw R7 `$V:chain . extend_from_slice ( & $E )` => `vec_extend(&mut $V, $E)`
+//@@ spec
+        requires old(h).wf(), wf_task(*old(h), **task)
+        ensures
+            //# U-undo-fwd
+            final(h).wf() && fwd(*old(h), *final(h)),
+            //# U-undo-rejects-completed
+            st_terminal(old(h).st(task.id@)) ==> ret is Err && *final(h) == *old(h),
+//@@ loop 1
+        invariant
+            //# frontier-ok
+            tasks_ok(*h, children@),
+            //# frontier-younger
+            forall|i: int| 0 <= i < children@.len() ==> h.tasks[(#[trigger] children@[i]).id@].seq > h.tasks[task.id@].seq,
+            //# task-untouched
+            h.has(task.id@) && h.tasks[task.id@] == old(h).tasks[task.id@],
+//@@ loop 2
+        invariant
+            //# frontier-ok
+            tasks_ok(*h, __v2@) && tasks_ok(*h, nexts@),
+            //# frontier-younger
+            forall|i: int| 0 <= i < __v2@.len() ==> h.tasks[(#[trigger] __v2@[i]).id@].seq > h.tasks[task.id@].seq,
+            //# nexts-younger
+            forall|i: int| 0 <= i < nexts@.len() ==> h.tasks[(#[trigger] nexts@[i]).id@].seq > h.tasks[task.id@].seq,
+            //# task-untouched
+            h.has(task.id@) && h.tasks[task.id@] == old(h).tasks[task.id@],
+//@@ proof after=vec_extend#1
+                proof {
+                    assert forall|i: int| 0 <= i < nexts@.len() implies h.has((#[trigger] nexts@[i]).id@) && h.tasks[nexts@[i].id@].node == nexts@[i].node && h.tasks[nexts@[i].id@].seq > h.tasks[task.id@].seq by {
+                        assert(h.has(t.id@));
+                    }
+                }
+//@@ end
+//@@ extract file=acts/src/scheduler/context.rs in="impl Context" item="fn back_task" name=Context::back_task props=C02,C05
+//@@ spec
+        requires old(h).wf(), wf_task(*old(h), **task), !st_terminal(old(h).st(task.id@)), tasks_ok(*old(h), paths@)
+        ensures
+            //# K-back-fwd
+            final(h).wf() && fwd(*old(h), *final(h)),
+//@@ proof at=beforeloop1
+        let ghost act_tid0 = task.id@;
+//@@ loop 1
+        invariant
+            //# sib-ok
+            tasks_ok(*h, __v1@),
+            //# sib-not-self
+            forall|i: int| 0 <= i < __v1@.len() ==> (#[trigger] __v1@[i]).id@ != act_tid0,
+            //# act-untouched
+            h.tasks[act_tid0] == old(h).tasks[act_tid0] && h.cur == old(h).cur,
+//@@ loop 2
+        invariant
+            //# anc-ok
+            parent is Some ==> wf_task(*h, *parent->Some_0),
+//@@ loop 3
+        invariant
+            //# paths-ok
+            tasks_ok(*h, __v3@),
 //@@ end
 }
 
